@@ -38,8 +38,8 @@ TRUSTED_EXTRA = [
 SHAPES_QUICK = [
     dict(asn4=True, addpath=[], extnh=[]),
     dict(asn4=False, addpath=[], extnh=[]),
-    dict(asn4=True, addpath=wirerig.ADDPATH_OK, extnh=[]),
-    dict(asn4=False, addpath=[(1, 1), (1, 128), (2, 4)], extnh=[]),
+    dict(asn4=True, addpath=wirerig.ADDPATH_OK, extnh=[], aigp=True),
+    dict(asn4=False, addpath=[(1, 1), (1, 128), (2, 4)], extnh=[], aigp=True),
     dict(asn4=True, addpath=[(2, 1), (1, 4)], extnh=wirerig.EXTNH_OK),
     dict(asn4=False, addpath=wirerig.ADDPATH_OK, extnh=wirerig.EXTNH_OK),
 ]
@@ -80,7 +80,10 @@ def expected_of_sem(u: dict, shape: dict) -> dict:
         c = a['code']
         if c in (14, 15, 17, 18):
             continue
-        if c not in wiregen.KNOWN and a['flags'][1] == '0':
+        if c == 26 and a['flags'][1] == '0':
+            if not shape.get('aigp'):
+                continue  # AIGP from a peer for which AIGP_SESSION is not enabled: as if absent (RFC 7311 3.3)
+        elif c not in wiregen.KNOWN and a['flags'][1] == '0':
             continue  # unrecognised optional non-transitive: not relayed, not reported
         if merged and c in (2, 7):
             continue  # RFC 6793 reconstruction: the model's job
@@ -118,6 +121,12 @@ def comparable_attrs(model_attrs: dict, impl_attrs: dict, agg: list | None = Non
     return ma, ia
 
 
+def ref_report(S: 'wirerig.Session', line: str) -> dict:
+    """The reading of the RFC reference for this session (`S.params()` told it whether AIGP_SESSION is enabled:
+    theorems aigp_absent_when_session_disabled / aigp_reported_when_session_enabled of Props/C02.lean)."""
+    return wirerig.report_of_line(line)
+
+
 def diff_reports(model: dict, impl: dict) -> list[str]:
     """Parts on which the implementation's report differs from the reference: 'eor', 'ann', 'wd', 'attr:<code>'."""
     d = []
@@ -141,7 +150,7 @@ from exabgp.bgp.message.update.attribute import AttributeCollection  # noqa: E40
 
 def outcome(S: wirerig.Session, body: bytes, model_line: str) -> tuple[str, dict, dict | None]:
     """(what, details, impl result): '' when the real path reports exactly the reference reading."""
-    model = wirerig.report_of_line(model_line)
+    model = ref_report(S, model_line)
     res = S.decode(body)
     if 'err' in model:
         # the reference refuses it: not a well-formed message (recorded traffic under a foreign shape)
@@ -386,7 +395,8 @@ def run(ctx: Ctx) -> None:
         return
     unknown_codes = [c for c in list(range(11, 14)) + list(range(19, 256)) if c not in wiregen.exabgp_only_codes() and c not in wiregen.KNOWN]
     OPAQUE_CODES.update(wiregen.exabgp_only_codes())
-    sessions = [wirerig.Session(addpath=s['addpath'], asn4=s['asn4'], extnh=s['extnh']) for s in shapes]
+    OPAQUE_CODES.discard(26)  # AIGP is compared: its bytes on a session configured for it, nothing otherwise
+    sessions = [wirerig.Session(addpath=s['addpath'], asn4=s['asn4'], extnh=s['extnh'], aigp=s.get('aigp', False)) for s in shapes]
 
     # 1. build the case list: (session index, origin, sem | None, body | None)
     cases: list[dict] = []
@@ -454,7 +464,7 @@ def run(ctx: Ctx) -> None:
             ctx.count('skipped:' + what)
             # not a well-formed message under this shape; what ExaBGP does with it belongs to C03 / C08
             return
-        model = wirerig.report_of_line(c['model'])
+        model = ref_report(S, c['model'])
         for t in sorted(c['sem']['tags']) if 'sem' in c else []:
             ctx.count('tag:' + t)
         ctx.count('size:' + ('<64' if len(body) < 64 else '<256' if len(body) < 256 else '<1024' if len(body) < 1024 else '>=1024'))
@@ -576,6 +586,7 @@ def run(ctx: Ctx) -> None:
     if drv is not None:
         drv.close()
     repeat_stream(ctx, sessions, [c for c in cases if c['origin'] == 'generated'], 400 if quick else 8000)
+    other_session_stream(ctx, sessions, [c for c in cases if c['origin'] == 'generated'], 300 if quick else 6000)
     malformed_stream(ctx, sessions, [c for c in cases if c['origin'] == 'generated'], 300 if quick else 3000)
     for k, v in seen_sig.items():
         ctx.notes.append(f'failure class {k[0]} {k[1]}: {v} case(s)')
@@ -619,6 +630,45 @@ def repeat_stream(ctx: Ctx, sessions: list, cases: list, n: int) -> None:
     AttributeCollection.previous = b''
 
 
+def other_session_stream(ctx: Ctx, sessions: list, cases: list, n: int) -> None:
+    """The daemon decodes for all its sessions in one process.  A well-formed UPDATE is first decoded by ANOTHER
+    session (one that differs in AS-number width, in AIGP_SESSION, ...: whatever it makes of the bytes), then by its
+    own: what its own session reports is still the reading of the reference for ITS parameters.  Every case that
+    carries an attribute whose reading depends on a session parameter (AIGP, AS_PATH, AGGREGATOR, AS4_*) comes
+    first, the rest is sampled."""
+    rng = ctx.rng
+    dep = {2, 7, 17, 18, 26}
+    first = [c for c in cases if 'sem' in c and c.get('model', '').startswith('ok') and any(a['code'] == 26 for a in c['sem']['a'])]
+    rest = [c for c in cases if 'sem' in c and c.get('model', '').startswith('ok') and c not in first and any(a['code'] in dep for a in c['sem']['a'])]
+    picks = first + (rest if len(rest) <= n else rng.sample(rest, n))
+    seen: set = set()
+    for c in picks[: n + len(first)]:
+        if ctx.time_left() < 10:
+            break
+        S = sessions[c['s']]
+        has_aigp = any(a['code'] == 26 for a in c['sem']['a'])
+        others = [T for T in sessions if T is not S and ((T.aigp != S.aigp) if has_aigp else (T.asn4 != S.asn4))]
+        if not others:
+            continue
+        T = rng.choice(others)
+        T.decode(c['body'])
+        what, details, res = outcome(S, c['body'], c['model'])
+        ctx.evaluations += 1
+        ctx.count('other-session-first' + (':aigp' if has_aigp else ''))
+        if what in ('', 'model-refuses', 'family-not-negotiated'):
+            continue
+        canon = {'what': 'other-session-first:' + what, 'aigp': has_aigp, 'parts': sorted(details.get('parts', [])) if isinstance(details.get('parts'), list) else None}
+        key = json.dumps(canon, sort_keys=True)
+        ctx.count('fail:other-session-first')
+        if key in seen:
+            continue
+        seen.add(key)
+        ctx.failures.append(Failure('update-class', canon, {'shape': S.shape() | {'addpath': S.addpath, 'extnh': S.extnh}, 'other': T.shape() | {'addpath': T.addpath, 'extnh': T.extnh}, 'body': c['body'].hex(), 'other_first': True},
+                                    f'after another session of the process (aigp={T.aigp}, asn4={T.asn4}) decoded the same bytes, this session (aigp={S.aigp}, asn4={S.asn4}) reports: {what} {json.dumps(details, default=str)[:400]}'))
+    AttributeCollection.cached = None
+    AttributeCollection.previous = b''
+
+
 def malformed_stream(ctx: Ctx, sessions: list, cases: list, n: int) -> None:
     """Single-point corruptions and truncations of generated bodies: NOT part of the property (C08 and
     C03 judge what must happen to them). Run to show where the two readings part on malformed input:
@@ -653,7 +703,24 @@ def replay(path: str) -> int:
     data = json.loads(Path(path).read_text())
     rp = data['replay']
     sh = rp['shape']
-    S = wirerig.Session(addpath=[tuple(x) for x in sh['addpath']], asn4=sh['asn4'], extnh=[tuple(x) for x in sh['extnh']])
+    OPAQUE_CODES.update(wiregen.exabgp_only_codes())
+    OPAQUE_CODES.discard(26)
+    S = wirerig.Session(addpath=[tuple(x) for x in sh['addpath']], asn4=sh['asn4'], extnh=[tuple(x) for x in sh['extnh']], aigp=sh.get('aigp', False))
+    if rp.get('other_first'):
+        o = rp['other']
+        T = wirerig.Session(addpath=[tuple(x) for x in o['addpath']], asn4=o['asn4'], extnh=[tuple(x) for x in o['extnh']], aigp=o.get('aigp', False))
+        body = bytes.fromhex(rp['body'])
+        T.decode(body)
+        drv = common.Driver('drv_wire')
+        try:
+            line = drv.ask(f'wire decode {S.params()} {rp["body"]}')
+        finally:
+            drv.close()
+        what, details, _ = outcome(S, body, line)
+        print('other session first:', T.params(), '; then', S.params())
+        print('reference:', line)
+        print('real path:', what or 'agrees', json.dumps(details, default=str)[:1500])
+        return 1 if what else 0
     if rp.get('repeat'):
         body = bytes.fromhex(rp['body'])
         first = S.decode(body)
